@@ -57,6 +57,8 @@ FailedC10(r) ==
             \* the cell whose structure is compared is the first serialisation; every other serialisation of the same map (other
             \* insertion orders, the same object serialised again after edits) must be that very tree
             \cup Clause("every_serialisation_is_the_canonical_tree", \A j \in 1..Len(r.hashes) : r.hashes[j] = r.hashes[1])
+      [] r.op = "aug_e_holder_pruned" -> Clause("pruned_holder_reported_as_a_dictionary", r.out.kind # "dictionary")
+      [] r.op = "hmcall" -> {}
       [] r.op = "parse_tree" ->
             LET heap == HeapOf(r.cell)
                 sp == ParseHeap(heap, r.root, r.w, <<>>, r.xw) IN
